@@ -54,6 +54,7 @@ uint64_t Runner<A>::constOp(const G &gr, const Model &mo, const sim::Op &op, con
     int which = (int)modn(op.x, 16);
     bool weightsOk = true;
     if constexpr (kind == WEIGHTED) for (auto &kv : mo.e) if (kv.second.val < 0) weightsOk = false;
+    if (kind == WEIGHTED && weightsOk && (which == 1 || which == 2 || which == 5)) which = 7; // weighted classes: mostly Dijkstra
     if ((which == 7) && (kind != WEIGHTED || !weightsOk)) which = 1;
     if (n == 0 && which >= 1 && which <= 7) which = 0;
     if ((which == 8 || which == 9) && !(kind == SIMPLE || kind == LABELED)) which = 12;
@@ -157,8 +158,18 @@ uint64_t Runner<A>::constOp(const G &gr, const Model &mo, const sim::Op &op, con
             break;
         }
         case 12: {
+            // copy construction; equality with the shared graph on either side, against an equal and a slightly different graph
             G c(gr);
             dg.byte(c == gr); dg.byte(c != gr);
+            dg.byte(gr == c); dg.byte(gr != c);
+            dg.byte(gr == gr);
+            if (n > 0) {
+                G d(gr);
+                if (d.hasEdge(va, vb)) d.removeEdge(va, vb);
+                else if constexpr (kind == WEIGHTED) d.addEdge(va, vb, 1.5);
+                else d.addEdge(va, vb);
+                dg.byte(gr == d); dg.byte(d == gr); dg.byte(gr != d);
+            }
             dg.u64(c.getEdgeNumber());
             break;
         }
@@ -169,7 +180,7 @@ uint64_t Runner<A>::constOp(const G &gr, const Model &mo, const sim::Op &op, con
             break;
         }
         case 14: {
-            if constexpr (kind == SIMPLE || kind == LABELED) dg.u64(writeBoth(gr, env.dir + "/" + tag));
+            if constexpr (kind == SIMPLE || kind == LABELED) { env.dirty = true; dg.u64(writeBoth(gr, env.dir + "/" + tag)); }
             break;
         }
         case 15: {
